@@ -38,3 +38,13 @@ Definition apply_opt_clamp (c : cfg) (o : gopt) : cfg :=
   if k =? 1 then mk_cfg (c_size c) (Z.min v (c_size c)) (c_max c) else apply_opt c o.
 
 Definition new_cfg_clamp (opts : list gopt) : cfg := fold_left apply_opt_clamp opts cfg_default.
+
+(* NOT the code: the range-loop body of a tick that skips a stream with nothing missing WITHOUT
+   replacing its count log by an empty map (`if len(missing) == 0 { continue }` before the
+   reset).  Kept for the refutation theorem: the counts then survive a tick at which the stream
+   had nothing missing. *)
+Definition tick_one_keep (maxn : Z) (miss : list Z) (cnt : option cmap) : option (list Z) * option cmap :=
+  match miss with
+  | [] => (None, cnt)
+  | _ :: _ => tick_one maxn miss cnt
+  end.
